@@ -3,6 +3,8 @@ import MirProofs.Props.C05_GenTr
 import MirProofs.Props.C07_Transcription
 import MirProofs.Props.C01_Transcription
 import MirProofs.Props.C04_Transcription
+import MirProofs.Props.C14_GenVal
+import MirProofs.Props.C02_Transcription
 /-!
   C04 (regenerated) — `transcription.average_overlap_ratio` and the velocity-aware functions of
   `mir_eval/transcription_velocity.py` AS TRANSLATED from the source on every run (`lean/MirGen/TrVel.lean`,
@@ -146,6 +148,70 @@ theorem match_notes_eq_model (ri : List Ival) (rp rv : List Rat) (ei : List Ival
             rw [if_pos l4]
             simp only [ok_bind, pure, Except.pure, mask_eq_velFilter _ _ _ _ _ _ l1 l2, PyTV.lstsqLine]
 
+/-! ### `transcription_velocity.validate`: the definition regenerated by part `validators`, on the array views -/
+
+section bridge
+open Mir.Validate
+
+theorem check_eq_raiseIf (b : Bool) : check b = raiseIf b := by cases b <;> rfl
+
+theorem rows2_flat : ∀ iv : List (Rat × Rat), rows2 (iv.flatMap fun r => [r.1, r.2]) = iv
+  | [] => rfl
+  | r :: t => by simp [rows2, rows2_flat t]
+
+theorem any_flat (iv : List (Rat × Rat)) :
+    (iv.flatMap fun r => [r.1, r.2]).any (fun x => decide (x < 0)) = iv.any (fun x => decide (x.1 < 0) || decide (x.2 < 0)) := by
+  induction iv with
+  | nil => rfl
+  | cons r t ih => simp [ih, Bool.or_assoc]
+
+/-- `util.validate_intervals` of the hand model of part `validators` on the view of an interval list = `validateIntervals1` -/
+theorem utilIntervals_ivArr (iv : List (Rat × Rat)) : utilIntervals (PyTV.ivArr iv) = validateIntervals1 iv := by
+  unfold utilIntervals validateIntervals1 PyTV.ivArr
+  simp only [notNby2, bne_self_eq_false, rows2_flat, any_flat]
+  cases h1 : iv.any (fun x => decide (x.1 < 0) || decide (x.2 < 0)) <;>
+    cases h2 : iv.any (fun x => decide (x.2 ≤ x.1)) <;> simp [check, bind, Except.bind]
+
+theorem eq_of_total {p : Py Unit} {b : Bool} (ht : OkOrVE p) (h : p = .ok () ↔ b = false) : p = raiseIf b := by
+  cases b with
+  | false => simpa [raiseIf] using h.2 rfl
+  | true =>
+    rcases ht with h0 | h0
+    · have := h.1 h0; cases this
+    · simpa [raiseIf] using h0
+
+theorem minNegative_vec (v : List Rat) : minNegative (PyTV.vecArr v) = raiseIf (v.any fun x => decide (x < 0)) := by
+  apply eq_of_total (minNegative_total _)
+  rw [minNegative_ok_iff]
+  simp [PyTV.vecArr, List.any_eq_false]
+
+theorem minNonPositive_midi (p : List Rat) : minNonPositive (PyTV.midiArr p) = .ok () := by
+  rw [minNonPositive_ok_iff]
+  intro x hx
+  have h1 : x = 1 := by
+    simp only [PyTV.midiArr, List.mem_map] at hx
+    obtain ⟨_, _, h⟩ := hx
+    exact h.symm
+  rw [h1]; decide +kernel
+
+/-- **`transcription_velocity.validate` as regenerated by part `validators`**, applied to the array views of interval /
+    MIDI-pitch / velocity lists, **= the hand model** (`velValidate`), for ALL lists (any lengths, any values) -/
+theorem velocity_validate_eq_model (ri : List (Rat × Rat)) (rp rv : List Rat) (ei : List (Rat × Rat)) (ep ev : List Rat) :
+    Mir.GenV.transcription_velocity.validate (PyTV.ivArr ri) (PyTV.midiArr rp) (PyTV.vecArr rv) (PyTV.ivArr ei)
+        (PyTV.midiArr ep) (PyTV.vecArr ev) = velValidate ri (rp.map some) rv ei (ep.map some) ev := by
+  rw [Mir.C14.GenVal.velocity_validate_eq_model]
+  unfold velocityValidate transcriptionValidate transcriptionIntervals velValidate Transcription.validate validateIntervals
+  simp only [utilIntervals_ivArr, minNegative_vec, minNonPositive_midi, check_eq_raiseIf]
+  simp only [PyTV.ivArr, PyTV.midiArr, PyTV.vecArr, Arr.shape0, List.length_map, bind_assoc]
+  cases validateIntervals1 ri with
+  | error x => rfl
+  | ok u =>
+    cases validateIntervals1 ei with
+    | error x => rfl
+    | ok u2 => simp [bind, Except.bind, raiseIf, List.any_map]
+
+end bridge
+
 /-! ### `transcription_velocity.precision_recall_f1_overlap` -/
 
 theorem velValidate_lengths {ri ei : List Ival} {rp rv ep ev : List Rat} {u : Unit}
@@ -160,7 +226,8 @@ theorem precision_recall_f1_overlap_eq_model (ri : List Ival) (rp rv : List Rat)
     (ot pt : Rat) (ratio : Option Rat) (mt : Rat) (strict : Bool) (vt beta : Rat) :
     Mir.Gen.transcription_velocity.precision_recall_f1_overlap ri rp rv ei ep ev ot pt ratio mt strict vt beta =
       velPRFOverlap ri rp rv ei ep ev ⟨ot, pt, ratio, mt, strict⟩ vt beta := by
-  unfold Mir.Gen.transcription_velocity.precision_recall_f1_overlap velPRFOverlap PyTV.validate
+  unfold Mir.Gen.transcription_velocity.precision_recall_f1_overlap velPRFOverlap
+  rw [velocity_validate_eq_model]
   cases hv : velValidate ri (rp.map some) rv ei (ep.map some) ev with
   | error x => rfl
   | ok u =>
@@ -180,6 +247,95 @@ theorem precision_recall_f1_overlap_eq_model (ri : List Ival) (rp rv : List Rat)
           Mir.C04.GenGlue.f_measure_hits _ _ _ (Mir.C05.GenTr.length_ne_zero hr0) (Mir.C05.GenTr.length_ne_zero he0),
           average_overlap_ratio_eq_model]
         cases averageOverlapRatio ri ei m <;> rfl
+
+/-! ### the `evaluate` glue -/
+
+/-- **`transcription.evaluate` as translated = the hand model** (`Transcription.evaluate`) for ALL inputs and ALL keyword
+    dicts: an absent keyword (`none`) is the callee's documented default, `offset_ratio` may be absent, None or a number;
+    `setdefault`, the forced `offset_ratio=None` for the `_no_offset` scores, the restored value for the offset scores, the
+    keys of the OrderedDict in insertion order -/
+theorem evaluate_eq_model (ri : List Ival) (rp : List Rat) (ei : List Ival) (ep : List Rat) (ot pt : Option Rat)
+    (ratio : Option (Option Rat)) (mt : Option Rat) (strict : Option Bool) (beta : Option Rat) :
+    Mir.Gen.transcription.evaluate ri rp ei ep ot pt ratio mt strict beta =
+      Transcription.evaluate ri rp ei ep
+        ⟨ot.getD (1 / 20), pt.getD 50, ratio.getD (some (1 / 5)), mt.getD (1 / 20), strict.getD false⟩ (beta.getD 1) := by
+  unfold Mir.Gen.transcription.evaluate Transcription.evaluate
+  simp only [Mir.C05.GenTr.precision_recall_f1_overlap_eq_model, Mir.C05.GenTr.onset_precision_recall_f1_eq_model,
+    Mir.C05.GenTr.offset_precision_recall_f1_eq_model]
+  generalize Option.getD ratio (some (1 / 5)) = R
+  generalize Option.getD ot (1 / 20) = OT
+  generalize Option.getD pt 50 = PT
+  generalize Option.getD mt (1 / 20) = MT
+  generalize Option.getD strict false = S
+  generalize Option.getD beta 1 = B
+  cases R with
+  | none =>
+    simp only [ok_bind, pure_bind, List.nil_append]
+    cases precisionRecallF1Overlap ri rp ei ep ⟨OT, PT, none, MT, S⟩ B with
+    | error x => rfl
+    | ok q =>
+      simp only [ok_bind]
+      cases onsetPRF ri ei OT S B with
+      | error x => rfl
+      | ok o => rfl
+  | some ρ =>
+    simp only [ok_bind, pure_bind, List.nil_append]
+    cases precisionRecallF1Overlap ri rp ei ep ⟨OT, PT, some ρ, MT, S⟩ B with
+    | error x => rfl
+    | ok q0 =>
+      simp only [ok_bind]
+      cases precisionRecallF1Overlap ri rp ei ep ⟨OT, PT, none, MT, S⟩ B with
+      | error x => rfl
+      | ok q =>
+        simp only [ok_bind]
+        cases onsetPRF ri ei OT S B with
+        | error x => rfl
+        | ok o =>
+          simp only [ok_bind]
+          cases offsetPRF ri ei ρ MT S B with
+          | error x => rfl
+          | ok f => simp [pure, Except.pure, bind, Except.bind]
+
+/-- **`transcription_velocity.evaluate` as translated = the hand model** (`velEvaluate`) for ALL inputs and ALL keyword dicts -/
+theorem velocity_evaluate_eq_model (ri : List Ival) (rp rv : List Rat) (ei : List Ival) (ep ev : List Rat) (ot pt : Option Rat)
+    (ratio : Option (Option Rat)) (mt : Option Rat) (strict : Option Bool) (vt beta : Option Rat) :
+    Mir.Gen.transcription_velocity.evaluate ri rp rv ei ep ev ot pt ratio mt strict vt beta =
+      velEvaluate ri rp rv ei ep ev
+        ⟨ot.getD (1 / 20), pt.getD 50, ratio.getD (some (1 / 5)), mt.getD (1 / 20), strict.getD false⟩
+        (vt.getD (1 / 10)) (beta.getD 1) := by
+  unfold Mir.Gen.transcription_velocity.evaluate velEvaluate
+  simp only [precision_recall_f1_overlap_eq_model]
+  generalize Option.getD ratio (some (1 / 5)) = R
+  generalize Option.getD ot (1 / 20) = OT
+  generalize Option.getD pt 50 = PT
+  generalize Option.getD mt (1 / 20) = MT
+  generalize Option.getD strict false = S
+  generalize Option.getD vt (1 / 10) = VT
+  generalize Option.getD beta 1 = B
+  cases R with
+  | none =>
+    simp only [ok_bind, pure_bind, List.nil_append]
+  | some ρ =>
+    simp only [ok_bind, pure_bind, List.nil_append]
+    cases velPRFOverlap ri rp rv ei ep ev ⟨OT, PT, some ρ, MT, S⟩ VT B with
+    | error x => rfl
+    | ok q0 =>
+      simp only [ok_bind]
+      cases velPRFOverlap ri rp rv ei ep ev ⟨OT, PT, none, MT, S⟩ VT B with
+      | error x => rfl
+      | ok q => simp [pure, Except.pure, bind, Except.bind]
+
+/-- the keys of the translated `transcription.evaluate`, in order: 14 with an offset ratio, 7 with `offset_ratio=None` -/
+theorem gen_evaluate_keys (ri : List Ival) (rp : List Rat) (ei : List Ival) (ep : List Rat) (ot pt : Option Rat)
+    (ratio : Option (Option Rat)) (mt : Option Rat) (strict : Option Bool) (beta : Option Rat) (d : List (String × Rat))
+    (h : Mir.Gen.transcription.evaluate ri rp ei ep ot pt ratio mt strict beta = .ok d) :
+    d.map Prod.fst = (if (ratio.getD (some (1 / 5))).isSome then
+        ["Precision", "Recall", "F-measure", "Average_Overlap_Ratio"] else []) ++
+      ["Precision_no_offset", "Recall_no_offset", "F-measure_no_offset", "Average_Overlap_Ratio_no_offset",
+       "Onset_Precision", "Onset_Recall", "Onset_F-measure"] ++
+      (if (ratio.getD (some (1 / 5))).isSome then ["Offset_Precision", "Offset_Recall", "Offset_F-measure"] else []) := by
+  rw [evaluate_eq_model] at h
+  exact Mir.C04.Transcription.evaluate_keys ri ei rp ep _ _ d h
 
 /-! ### the headline statements on the translated definitions -/
 
@@ -241,6 +397,20 @@ theorem gen_velocity_tolerance_widen (ri : List Ival) (rp rv : List Rat) (ei : L
     PRFLe a b := by
   rw [precision_recall_f1_overlap_eq_model] at ha hb
   exact Mir.C07.Transcription.velocity_tolerance_widen ri ei rp rv ep ev _ vt vt' beta hvt a b ha hb
+
+/-- (C02 on the translated definition) with the identity pairing the translated AOR of `(x, x)` is 1 -/
+theorem gen_aor_identity (ri : List Ival) (m : List Edge) (a : Rat) (hv : validateIntervals1 ri = .ok ())
+    (hne : m ≠ []) (hid : ∀ ij ∈ m, ij.1 = ij.2) (h : Mir.Gen.transcription.average_overlap_ratio ri ri m = .ok a) : a = 1 := by
+  rw [average_overlap_ratio_eq_model] at h
+  exact Mir.C02.Transcription.aor_identity ri m a hv hne hid h
+
+/-- (C05 on the translated definition) the velocity-filtered pairing is still one-to-one and feasible for the note criterion -/
+theorem gen_velocity_pairing_valid (ri : List Ival) (rp rv : List Rat) (ei : List Ival) (ep ev : List Rat) (ot pt : Rat)
+    (ratio : Option Rat) (mt : Rat) (strict : Bool) (vt : Rat) (hr : ri.length = rp.length) (he : ei.length = ep.length)
+    (M' : List Edge) (h : Mir.Gen.transcription_velocity.match_notes ri rp rv ei ep ev ot pt ratio mt strict vt = .ok M') :
+    ValidMatching (hitGraph (noteHit ⟨ot, pt, ratio, mt, strict⟩) (ri.zip rp) (ei.zip ep)) M' := by
+  rw [match_notes_eq_model ri rp rv ei ep ev ot pt ratio mt strict vt hr he] at h
+  exact Mir.C05.Transcription.velocity_pairing_valid ri ei rp rv ep ev _ vt M' h
 
 /-! ### non-vacuity -/
 
